@@ -652,7 +652,25 @@ func c12RunConc(c *mon.Ctx, seed uint64) {
 		ratio := oracle.FMul(av, oracle.FInv0(bv))
 		qr := oracle.FIsSquare(ratio)
 		wBytes := oracle.Bytes32(av)
+		in48, in24 := r.Bytes(48), r.Bytes(24)
+		w48, w24 := oracle.Mod(new(big.Int).SetBytes(in48), p), new(big.Int).SetBytes(in24)
 		jobs = append(jobs, func() string {
+			// the loaders: every job parses its own bytes
+			for rep := 0; rep < 8; rep++ {
+				if got := mon.FEVal(field.New().HashToFieldElement([48]byte(in48))); got.Cmp(w48) != 0 {
+					return fmt.Sprintf("HashToFieldElement(%x) = %x", in48, got)
+				}
+
+				if got := mon.FEVal(field.New().FromBytesNoReduce(in24)); got.Cmp(w24) != 0 {
+					return fmt.Sprintf("FromBytesNoReduce(%x) = %x", in24, got)
+				}
+
+				e, _ := field.New().FromBytesWithReduce([32]byte(wBytes))
+				if got := mon.FEVal(e); got.Cmp(av) != 0 {
+					return fmt.Sprintf("FromBytesWithReduce(%x) = %x", wBytes, got)
+				}
+			}
+
 			if got := mon.FEVal(field.New().Invert(*a)); got.Cmp(wInv) != 0 {
 				return fmt.Sprintf("Invert(%x) = %x", av, got)
 			}
@@ -676,7 +694,7 @@ func c12RunConc(c *mon.Ctx, seed uint64) {
 		})
 	}
 
-	if c.RunConcurrent("field Invert / Multiply / SqrtRatio / Bytes / Sgn0", "field-concurrent", 300, jobs) {
+	if c.RunConcurrent("field loaders (HashToFieldElement, FromBytesNoReduce, FromBytesWithReduce) / Invert / Multiply / SqrtRatio / Bytes / Sgn0", "field-concurrent", 300, jobs) {
 		c.Seen("conc", seed)
 	}
 }
